@@ -121,6 +121,9 @@ fn run(events: &[Ev]) -> Result<Outcome, V> {
                 if let Some(pos) = &st.position.current {
                     out.checks += 1;
                     out.cells.push("fill_leaves_position_open");
+                    if pos.fees_enter.fees.is_sign_negative() && !pos.fees_enter.fees.is_zero() {
+                        out.cells.push("position_with_negative_entry_fees_(rebates)");
+                    }
                     let want = estimate(pos, d(p));
                     if (pos.pnl_unrealised - want).abs() > tol(pos, d(p)) {
                         // a fill that OPENS a position (first fill or the remainder of a flip): the
@@ -245,6 +248,9 @@ fn gen_events(rng: &mut Rng) -> Vec<Ev> {
                 }
                 let p = px(rng);
                 let fee = if rng.chance(1, 3) { Decimal::ZERO } else { (p * q * Decimal::new(rng.range(1, 30), 4)).round_dp(8) };
+                // maker rebates: a fill may carry a NEGATIVE fee (the venue pays), so cumulative entry fees can be
+                // below zero; the documented estimate is the same expression
+                let fee = if rng.chance(1, 8) { -fee } else { fee };
                 net[i] += if buy { q } else { -q };
                 evs.push(Ev::Fill { i, buy, p: p.to_string(), q: q.normalize().to_string(), fee: fee.normalize().to_string(), t: tt.max(1) });
             }
@@ -323,6 +329,7 @@ fn main() {
     if args.tier != "miri" {
         for c in [
             "fill_leaves_position_open",
+            "position_with_negative_entry_fees_(rebates)",
             "fill_closes_position",
             "priced_market_item_with_open_position",
             "stale_market_item_with_open_position",
